@@ -1036,7 +1036,11 @@ def check_name_encoder(ctx, interp: Interp) -> None:
     for r in g.ids(lambda n: n.kind == "stmt" and isinstance(n.ast, ast.Return)):
         v = g.node(r).ast.value
         vals = resolve_local(f, v) if v is not None else []
-        from_cache = bool(vals) and all(cache_attr in src(x) for x in vals)
+        def cached(x):
+            if cache_attr in src(x):
+                return True
+            return any(isinstance(nm, ast.Name) and any(cache_attr in src(v) for v in local_values(f, nm.id)) for nm in ast.walk(x))
+        from_cache = bool(vals) and all(cached(x) for x in vals)
         if not from_cache and isinstance(v, ast.Name):
             from_cache = any(isinstance(t.ast, ast.NamedExpr) and cache_attr in src(t.ast.value) and t.ast.target.id == v.id and g.dominates(t.id, r)
                              for t in (g.node(i) for i in g.ids(lambda n: n.kind == "test")))
